@@ -30,6 +30,14 @@ type c18Case struct {
 	Servers []c18Server
 }
 
+func (k c18Case) genuineAt(i int) bool {
+	s := k.Servers[i]
+	if s.Identity == "firstname" {
+		return i == 0 && s.Proto != "1.0-1.1" // it names 127.0.0.1: genuine only when it really is the first endpoint
+	}
+	return k.genuine(s)
+}
+
 func (k c18Case) genuine(s c18Server) bool {
 	if s.Proto == "1.0-1.1" {
 		return false
@@ -55,6 +63,8 @@ func c18Why(k c18Case, s c18Server) string {
 		return "expired certificate"
 	case s.Identity == "notyet":
 		return "certificate not yet valid"
+	case s.Identity == "firstname":
+		return "certificate of a configured CA that names the first endpoint, presented by another endpoint"
 	case s.Identity == "othername":
 		return "certificate valid only for another name/address"
 	case s.Proto == "1.0-1.1":
@@ -108,8 +118,8 @@ func c18Run(c *ev.Ctx, k c18Case) {
 		return
 	}
 	first := -1
-	for i, s := range k.Servers {
-		if k.genuine(s) {
+	for i := range k.Servers {
+		if k.genuineAt(i) {
 			first = i
 			break
 		}
@@ -124,7 +134,7 @@ func c18Run(c *ev.Ctx, k c18Case) {
 		n, versions, peers, hs := len(s.Requests), append([]uint16{}, s.Versions...), s.PeerCerts, s.Handshakes
 		s.mu.Unlock()
 		sv := k.Servers[i]
-		if !k.genuine(sv) {
+		if !k.genuineAt(i) {
 			if n > 0 {
 				c.Violation("C18:impostor-served:"+sv.Identity+":"+sv.Proto, fmt.Sprintf("the RPC handler of endpoint %d ran although it is an impostor (%s)", i, c18Why(k, sv)), k)
 			}
@@ -169,7 +179,7 @@ func c18Run(c *ev.Ctx, k c18Case) {
 }
 
 func checkC18(c *ev.Ctx) {
-	c.Rule("real crypki.NewSigner / Sign over real TLS against harness gRPC servers on 127.0.0.1..3:port whose TLS personality is swapped per configuration: CA bundle {one file, two files, one file with two certificates} x server identity {configured CA 1, CA 2, foreign CA, self-signed, expired, not yet valid, other name} x protocol range {1.0-1.1, 1.2, 1.3, 1.0-1.3} x client-certificate policy {require+verify, request, ignore} (252 single-endpoint configurations), plus endpoint lists of length 2..3 with every placement of one genuine server among impostors of 2 kinds (thorough: 6 kinds, two genuine servers); servers record handshakes, negotiated version, peer certificates and whether the RPC handler ran. non-trivial = every configuration; distinct by configuration")
+	c.Rule("real crypki.NewSigner / Sign over real TLS against harness gRPC servers on 127.0.0.1..3:port whose TLS personality is swapped per configuration: CA bundle {one file, two files, one file with two certificates} x server identity {configured CA 1, CA 2, foreign CA, self-signed, expired, not yet valid, other name} x protocol range {1.0-1.1, 1.2, 1.3, 1.0-1.3} x client-certificate policy {require+verify, request, ignore} (252 single-endpoint configurations), plus endpoint lists of length 2..3 with every placement of one genuine server among impostors of 3 kinds incl. a configured-CA certificate that names the first endpoint (thorough: 7 kinds, two genuine servers); servers record handshakes, negotiated version, peer certificates and whether the RPC handler ran. non-trivial = every configuration; distinct by configuration")
 	c.Assume("TLS and gRPC libraries run with their own goroutines and real time; outcomes are deterministic functions of the configuration; handshake internals are trusted")
 	c17PKI = newPKI()
 	defer os.RemoveAll(c17PKI.dir)
@@ -200,7 +210,7 @@ func checkC18(c *ev.Ctx) {
 			}
 		}
 	}
-	impostors := []c18Server{{"foreign", "1.2", "require"}, {"ca1", "1.0-1.1", "ignore"}}
+	impostors := []c18Server{{"foreign", "1.2", "require"}, {"ca1", "1.0-1.1", "ignore"}, {"firstname", "1.2", "request"}}
 	if c.Thorough() {
 		impostors = append(impostors, c18Server{"selfsigned", "1.3", "request"}, c18Server{"expired", "1.0-1.3", "require"}, c18Server{"othername", "1.2", "ignore"}, c18Server{"notyet", "1.3", "require"})
 	}
